@@ -2,6 +2,7 @@ package main
 
 import (
 	"fmt"
+	"os"
 	"strings"
 	"time"
 
@@ -76,9 +77,6 @@ func Poke(cur realm, which int) int {
 	case 6:
 		mut.M["k"] = 5
 		return 5
-	case 7:
-		mut.Items = append(mut.Items, 1)
-		return 1
 	}
 	return -1
 }
@@ -196,39 +194,38 @@ func probe2() {
 		show(label, tr)
 		return tr
 	}
-	add("public a", alice, "gno.land/r/verif/a", map[string]string{"a.gno": body("a", "a1"), "a_test.gno": "package a\n\nimport \"testing\"\n\nfunc TestX(t *testing.T) {}\n", "README.md": "hello"})
-	fmt.Println(ch.Query("vm/qfile", "gno.land/r/verif/a"))
+	add("public a", alice, "gno.land/r/verif/aa", map[string]string{"aa.gno": body("aa", "a1"), "aa_test.gno": "package aa\n\nimport \"testing\"\n\nfunc TestX(t *testing.T) {}\n", "README.md": "hello"})
+	fmt.Println(ch.Query("vm/qfile", "gno.land/r/verif/aa"))
 	fmt.Println(ch.Query("vm/qfile", "gno.land/r/verif/a/gnomod.toml"))
 	fmt.Println(ch.Query("vm/qfile", "gno.land/r/verif/a/a_test.gno"))
-	add("public a again same", alice, "gno.land/r/verif/a", map[string]string{"a.gno": body("a", "a1")})
-	add("public a again other creator", bob, "gno.land/r/verif/a", map[string]string{"a.gno": body("a", "a2")})
+	add("public a again same", alice, "gno.land/r/verif/aa", map[string]string{"aa.gno": body("aa", "a1")})
+	add("public a again other creator", bob, "gno.land/r/verif/aa", map[string]string{"aa.gno": body("aa", "a2")})
 	priv := func(path string) string {
 		return "module = \"" + path + "\"\ngno = \"0.9\"\nprivate = true\n"
 	}
-	add("private b (with test file)", alice, "gno.land/r/verif/b", map[string]string{"gnomod.toml": priv("gno.land/r/verif/b"), "b.gno": body("b", "b1"), "b_test.gno": "package b\n", "z_filetest.gno": "package main\n\nfunc main() {}\n"})
-	fmt.Println(ch.Query("vm/qfile", "gno.land/r/verif/b"))
+	add("private b (with test file)", alice, "gno.land/r/verif/bb", map[string]string{"gnomod.toml": priv("gno.land/r/verif/bb"), "bb.gno": body("bb", "b1"), "bb_test.gno": "package bb\n", "z_filetest.gno": "package main\n\nfunc main() {}\n"})
+	fmt.Println(ch.Query("vm/qfile", "gno.land/r/verif/bb"))
 	fmt.Println(ch.Query("vm/qfile", "gno.land/r/verif/b/gnomod.toml"))
-	add("private b -> private (no test, other file, bob)", bob, "gno.land/r/verif/b", map[string]string{"gnomod.toml": priv("gno.land/r/verif/b"), "b2.gno": body("b", "b2")})
-	fmt.Println(ch.Query("vm/qfile", "gno.land/r/verif/b"))
+	add("private b -> private (no test, other file, bob)", bob, "gno.land/r/verif/bb", map[string]string{"gnomod.toml": priv("gno.land/r/verif/bb"), "bb2.gno": body("bb", "b2")})
+	fmt.Println(ch.Query("vm/qfile", "gno.land/r/verif/bb"))
 	fmt.Println(ch.Query("vm/qfile", "gno.land/r/verif/b/gnomod.toml"))
-	fmt.Println(ch.Eval("gno.land/r/verif/b", "Marker()"))
-	add("private b -> public", alice, "gno.land/r/verif/b", map[string]string{"b.gno": body("b", "b3")})
-	fmt.Println(ch.Query("vm/qfile", "gno.land/r/verif/b"))
-	add("public a -> private", alice, "gno.land/r/verif/a", map[string]string{"gnomod.toml": priv("gno.land/r/verif/a"), "a.gno": body("a", "a3")})
-	add("private p pkg", alice, "gno.land/p/verif/c", map[string]string{"gnomod.toml": priv("gno.land/p/verif/c"), "c.gno": "package c\n"})
-	add("test-only", alice, "gno.land/r/verif/t", map[string]string{"t_test.gno": "package t\n"})
-	add("filetest-only", alice, "gno.land/r/verif/t", map[string]string{"t_filetest.gno": "package main\n\nfunc main() {}\n"})
-	fmt.Println(ch.Query("vm/qfile", "gno.land/r/verif/t"))
-	for _, p := range []string{"gno.land/r/verif/a_test", "gno.land/e/" + alice.Addr.String() + "/run", "gno.land/x/verif/a", "gno.land/r/Verif/a", "gno.land/r/verif//a", "gno.land/r/verif/./a", "gno.land/r/verif/a/", "strings", "verif/a", "example.com/r/verif/a", "gno.land/r/verif/a\n", "gno.land/r/verif/" + strings.Repeat("a", 239), "gno.land/r/verif/" + strings.Repeat("a", 240), "gno.land/r/verif/a#allbutprod", "gno.land/r/ver-if/a", "gno.land/r/verif/a/v2", "gno.land/r/verif/internal/a"} {
+	fmt.Println(ch.Eval("gno.land/r/verif/bb", "Marker()"))
+	add("private b -> public", alice, "gno.land/r/verif/bb", map[string]string{"bb.gno": body("bb", "b3")})
+	fmt.Println(ch.Query("vm/qfile", "gno.land/r/verif/bb"))
+	add("public a -> private", alice, "gno.land/r/verif/aa", map[string]string{"gnomod.toml": priv("gno.land/r/verif/aa"), "aa.gno": body("aa", "a3")})
+	add("private p pkg", alice, "gno.land/p/verif/cc", map[string]string{"gnomod.toml": priv("gno.land/p/verif/cc"), "cc.gno": "package cc\n"})
+	add("test-only", alice, "gno.land/r/verif/tt", map[string]string{"tt_test.gno": "package tt\n"})
+	add("filetest-only", alice, "gno.land/r/verif/tt", map[string]string{"tt_filetest.gno": "package main\n\nfunc main() {}\n"})
+	fmt.Println(ch.Query("vm/qfile", "gno.land/r/verif/tt"))
+	for _, p := range []string{"gno.land/r/verif/aa_test", "gno.land/e/" + alice.Addr.String() + "/run", "gno.land/x/verif/aa", "gno.land/r/Verif/aa", "gno.land/r/verif//aa", "gno.land/r/verif/./aa", "gno.land/r/verif/aa/", "strings", "verif/aa", "example.com/r/verif/aa", "gno.land/r/verif/aa\n", "gno.land/r/verif/" + strings.Repeat("a", 239), "gno.land/r/verif/" + strings.Repeat("a", 240), "gno.land/r/verif/aa#allbutprod", "gno.land/r/ver-if/aa", "gno.land/r/verif/aa/v2", "gno.land/r/verif/internal/aa", "gno.land/r/verif/a-b/aa", "gno.land/r/verif/aa/v2/v3", "gno.land/r/verif/aa_test/bb"} {
 		name := p[strings.LastIndex(p, "/")+1:]
-		if name == "" || name == "v2" || strings.ContainsAny(name, "\n#") {
-			name = "a"
+		if name == "" || name == "v2" || name == "v3" || strings.ContainsAny(name, "\n#") {
+			name = "aa"
 		}
 		if name == "run" || name == "strings" {
-			name = "a"
+			name = "aa"
 		}
-		var tr *chainsim.TxResult
-		pv := vf.Try(func() { tr = add(fmt.Sprintf("path %q (len %d)", p, len(p)), alice, p, map[string]string{"a.gno": body(name, "x")}) })
+		pv := vf.Try(func() { add(fmt.Sprintf("path %q (len %d)", p, len(p)), alice, p, map[string]string{"aa.gno": body(name, "x")}) })
 		if pv != nil {
 			fmt.Println("   harness panic:", pv)
 			ch.EndBlockCommit()
@@ -236,7 +233,7 @@ func probe2() {
 	}
 	// ---- /p/ immutability
 	fmt.Println(ch.Eval("gno.land/p/verif/mut", "State()"))
-	for w := 0; w < 8; w++ {
+	for w := 0; w < 7; w++ {
 		show(fmt.Sprintf("mutuser.Poke(%d)", w), ch.OneTx([]std.Msg{chainsim.MsgCall(alice, "gno.land/r/verif/mutuser", "Poke", fmt.Sprint(w))}, fee, alice))
 	}
 	for _, stmt := range []string{"println(mut.Inc())", "println(mut.Append(1))", "mut.SetM(\"q\", 1)", "println(mut.Obj.Bump())", "mut.Obj.N = 5", "mut.M[\"k\"] = 4", "mut.Counter = 9"} {
@@ -244,5 +241,26 @@ func probe2() {
 	}
 	fmt.Println(ch.Eval("gno.land/p/verif/mut", "State()"))
 	fmt.Println(ch.Eval("gno.land/r/verif/mutuser", "Calls"))
-	probe3(ch)
+	// init-time (StageAdd) writes from OTHER packages
+	for i, stmt := range []string{"mut.Obj.Bump()", "mut.Inc()", "mut.BumpObj()", "mut.SetM(\"i\", 1)", "mut.Append(1)"} {
+		name := fmt.Sprintf("ini%d", i)
+		add("realm init: "+stmt, alice, "gno.land/r/verif/"+name, map[string]string{name + ".gno": "package " + name + "\n\nimport \"gno.land/p/verif/mut\"\n\nfunc init() {\n\t" + stmt + "\n}\n"})
+		fmt.Println(ch.Eval("gno.land/p/verif/mut", "State()"))
+		name = fmt.Sprintf("pin%d", i)
+		add("p pkg init: "+stmt, alice, "gno.land/p/verif/"+name, map[string]string{name + ".gno": "package " + name + "\n\nimport \"gno.land/p/verif/mut\"\n\nfunc init() {\n\t" + stmt + "\n}\n"})
+		fmt.Println(ch.Eval("gno.land/p/verif/mut", "State()"))
+		name = fmt.Sprintf("var%d", i)
+		if i != 3 {
+			add("realm var init: "+stmt, alice, "gno.land/r/verif/"+name, map[string]string{name + ".gno": "package " + name + "\n\nimport \"gno.land/p/verif/mut\"\n\nvar X = " + stmt + "\n"})
+			fmt.Println(ch.Eval("gno.land/p/verif/mut", "State()"))
+		}
+		show("run init: "+stmt, ch.OneTx([]std.Msg{chainsim.MsgRun(alice, "package main\n\nimport \"gno.land/p/verif/mut\"\n\nfunc init() {\n\t"+stmt+"\n}\n\nfunc main() {}\n")}, fee, alice))
+		fmt.Println(ch.Eval("gno.land/p/verif/mut", "State()"))
+	}
+	ch.Restart()
+	fmt.Println("after restart:")
+	fmt.Println(ch.Eval("gno.land/p/verif/mut", "State()"))
+	if len(os.Args) > 2 {
+		probe3(ch)
+	}
 }
